@@ -1,5 +1,7 @@
 import Rare.Drv.Expr
 import Rare.Model.C10
+import Rare.Model.C10Tree
+import Rare.Drv.C09
 namespace Rare.Drv.C10
 open Rare Rare.Expr Rare.C10 Rare.Proto Rare.Drv.Expr
 
@@ -11,7 +13,13 @@ open Rare Rare.Expr Rare.C10 Rare.Proto Rare.Drv.Expr
   definitions file;
 * `inline <file text> <call template> <inlined template> <elems> <keys>` – the call's value (the Go side
   also evaluates the hand-inlined body and answers `DIFF …` on disagreement);
-* `par <w> <template> <elems> <keys>` – value (the Go side evaluates from `w` goroutines).
+* `par <w> <template> <elems> <keys>` – value (the Go side evaluates from `w` goroutines);
+* `ftree <opt> <defs> <tokens> <elems> <keys>` – a definitions file given as TREES (`defs` = `namehex/tokens|…`, each
+  body a serialised (tree, style) as in C09's `tree` op) and a call-site tree: the SPEC prints bodies and call,
+  the loader model loads the printed file into the standard registry, the model compiles and evaluates the call;
+  the trees must be in the fragment (`fragOkS` for every body against the earlier definitions, fresh names) –
+  else `not-in-fragment` – and the value must be `evalTree` under `semDefs` (theorem `call_nested_eq_body`), so the
+  inlining semantics is compared with the real loader + compiler.
 -/
 def evalFuncs (opt : Bool) (file tmpl : Bytes) (elems keys : List Bytes) : String :=
   match loadDefs registry (parseDefs file) with
@@ -21,8 +29,57 @@ def evalFuncs (opt : Bool) (file tmpl : Bytes) (elems keys : List Bytes) : Strin
     | some tc => evalWith (withFuncs registry fs) opt tc (mkCtx elems keys)
     | none => "bad-args"
 
+/-- `namehex/tokens|namehex/tokens…` → definitions as (name, parsed tree) -/
+def parseTreeDefs (s : String) : Option (List (List Char × Rare.Drv.C09.PTree)) :=
+  if s == "." then some [] else
+  (s.splitOn "|").mapM fun d =>
+    match d.splitOn "/" with
+    | [nh, toks] =>
+      match Rare.Drv.C09.hexChars nh with
+      | some n =>
+        let tl := toks.splitOn ","
+        match Rare.Drv.C09.parseNode (tl.length + 1) tl with
+        | some (pt, []) => some (n, pt)
+        | _ => none
+      | none => none
+    | _ => none
+
+/-- Fresh names, every body in the fragment over the earlier definitions (the Boolean part of `DefsOk`). -/
+def defsOkB : Rare.C09.Sem → List (List Char) → List Def → Bool
+  | _, _, [] => true
+  | sem, U, (n, B) :: rest =>
+    (Rare.C09.fragLookup (String.ofList n)).isNone && fragOkS sem U B && defsOkB (semAdd sem (n, B)) (n :: U) rest
+
+def evalFtree (opt : Bool) (defs : List (List Char × Rare.Drv.C09.PTree)) (call : Rare.Drv.C09.PTree)
+    (elems keys : List Bytes) : String :=
+  let phrases := defs.map fun d =>
+    some (encodeRunes d.1, encodeRunes (Rare.C09.printTop (Rare.Drv.C09.styleOf d.2) (Rare.Drv.C09.treeOf d.2)))
+  let tdefs : List Def := defs.map fun d => (d.1, Rare.Drv.C09.treeOf d.2)
+  let e := Rare.Drv.C09.treeOf call
+  let ctx := mkCtx elems keys
+  match loadDefs registry phrases with
+  | .error m => panicAns m
+  | .ok (_, fs) =>
+    let tpl := Rare.C09.printTop (Rare.Drv.C09.styleOf call) e
+    let ans := evalWith (withFuncs registry fs) opt tpl ctx
+    let sem := semDefs (fun _ => Rare.C09.stdSem) tdefs
+    if defsOkB (fun _ => Rare.C09.stdSem) [] tdefs && fragOkS sem (tdefs.map (·.1)).reverse e then
+      let spec := Rare.C09.evalTree (Rare.C09.envC sem ctx) e
+      if ans != s!"ok errs=. val={Hex.enc spec}" then
+        s!"spec-violation model {ans} tpl={Hex.enc (encodeRunes tpl)} spec={Hex.enc spec}"
+      else ans
+    else s!"not-in-fragment tpl={Hex.enc (encodeRunes tpl)}"
+
 def handle (args : List String) : String :=
   match args with
+  | ["ftree", o, ds, toks, el, ks] =>
+    match parseTreeDefs ds, decHexList el, decHexList ks with
+    | some defs, some elems, some keys =>
+      let tl := toks.splitOn ","
+      match Rare.Drv.C09.parseNode (tl.length + 1) tl with
+      | some (pt, []) => evalFtree (o == "1") defs pt elems keys
+      | _ => "bad-args"
+    | _, _, _ => "bad-args"
   | ["optdiff", t, el, ks] =>
     match Rare.Drv.Expr.handle ["expr", "1", t, el, ks] with
     | some a => a
